@@ -18,7 +18,8 @@ ASSUMPTIONS = cc.ASSUMPTIONS_CORE
 
 def extra(tier, rng):
     import coregen
-    return [coregen.override_family(rng) for _ in range(150 if tier == "quick" else 3000)]
+    return [coregen.override_family(rng) for _ in range(150 if tier == "quick" else 3000)] + \
+        [coregen.shared_override_family(rng) for _ in range(100 if tier == "quick" else 2000)]
 
 
 def plan(tier, seed):
